@@ -77,20 +77,39 @@ def c21(facts, rep):
         n += 1
         add("R21c", "positional insert only on the BySourceTimestamp arm", fc.only_through([bb], g_src), "insert reachable on another arm", t.line)
         idx = fc.arg(t, 1)
-        # the index must derive from the list on every path: a search result or len(); a constant default is wrong
-        e = E.strip_casts(idx)
-        ok = False
+        # the index must derive from the list on every path: a search result or len(); a constant default is wrong.
+        # `match search { Some(i) => i, None => len }` assigns the index in two places: every definition is classified.
+        e0 = E.strip_casts(idx)
+        forms = [e0]
+        if e0[0] == "local" and not e0[2]:
+            ds = fc.mir.whole_defs(e0[1])
+            if len(ds) > 1:
+                forms = [E.strip_casts(fc._def_expr(d)) for d in ds]
         detail = fc.show(idx)[:200]
-        if E.is_call(e, "Option::unwrap_or"):
-            dflt = E.strip_casts(e[2][1])
-            ok = E.mentions_call(dflt, "Vec::len", "[T]::len", "len") and E.mentions_field(dflt, "sample_list")
-            if dflt[0] == "const":
-                detail = "insert position defaults to the constant %s when no stored sample is newer: a sample newer than everything stored is inserted at the front" % dflt[1]
-        elif E.is_call(e, "Option::unwrap_or_else", "Option::map_or", "Option::map_or_else"):
-            cbs = closure_bodies_in(facts, fc, e)
-            ok = any(cb.calls_any("Vec::len", "[T]::len") for cb in cbs) or E.mentions_call(e, "Vec::len")
-        elif E.is_call(e, "partition_point", "binary_search_by", "binary_search_by_key"):
-            ok = True
+        kinds = []
+        for e in forms:
+            k = None
+            if E.is_call(e, "Option::unwrap_or"):
+                dflt = E.strip_casts(e[2][1])
+                if E.mentions_call(dflt, "Vec::len", "[T]::len", "len") and E.mentions_field(dflt, "sample_list"):
+                    k = "search"
+                if dflt[0] == "const":
+                    detail = "insert position defaults to the constant %s when no stored sample is newer: a sample newer than everything stored is inserted at the front" % dflt[1]
+            elif E.is_call(e, "Option::unwrap_or_else", "Option::map_or", "Option::map_or_else"):
+                cbs = closure_bodies_in(facts, fc, e)
+                if any(cb.calls_any("Vec::len", "[T]::len") for cb in cbs) or E.mentions_call(e, "Vec::len"):
+                    k = "search"
+            elif E.is_call(e, "partition_point", "binary_search_by", "binary_search_by_key"):
+                k = "search"
+            elif E.is_call(e, "Iterator::position") and e[4] and e[4][0] == "as Some":
+                k = "search"        # the Some payload of the search
+            elif E.is_call(e, "Vec::len", "[T]::len") or (e[0] == "un" and e[1] == "PtrMetadata"):
+                k = "len" if E.mentions_field(e, "sample_list") else None
+            elif e[0] == "const":
+                detail = "insert position is the constant %s on one path: a sample newer than everything stored is inserted at the front" % e[1]
+            kinds.append(k)
+        ok = all(k is not None for k in kinds) and "search" in kinds
+        e = ("agg", "tuple", tuple(forms), ())
         add("R21a", "insert position always derives from the stored list (search result or len)", ok and E.mentions_field(e, "sample_list"), detail, t.line)
         # R21b: predicate compares stored source_timestamp > new one
         okp = False
